@@ -382,3 +382,65 @@ End Deprec.
 
 Lemma deprec_inv_init w : deprec_inv w init_state.
 Proof. split; cbn; [discriminate|intros ? ? []]. Qed.
+
+(* ====================================================================== *)
+(* C08: the fetcher's metadata is retrievable unchanged                    *)
+(* ====================================================================== *)
+Definition metas_of (w : world) (ds : list (pkg * content)) : list (pkg * (str * str)) :=
+  flat_map (fun pc => match w_fetch w (fst pc) with Some (_, Some m) => [(fst pc, m)] | _ => [] end) ds.
+
+Definition meta_inv (w : world) (st : bstate) : Prop := metas st = metas_of w (dirs st).
+
+Section Meta.
+Variable w : world.
+
+Lemma frs_meta st p sub sid : meta_inv w st -> meta_inv w (fst (find_registry_source w st p sub sid)).
+Proof.
+  intros H. unfold meta_inv in *.
+  pose proof (find_registry_source_fetch w st p sub sid) as [_ Hd].
+  assert (Hm : metas (fst (find_registry_source w st p sub sid)) = metas st).
+  { unfold find_registry_source.
+    destruct (assoc str_eqb p (vcache st)) as [infos|].
+    - destruct (select_version _ _) as [v|]; cbn; [|reflexivity].
+      destruct (assoc pv_eqb (p, v) (resolved st)) as [[rp rsub]|]; cbn.
+      + destruct (final_source_addr sub rp rsub); reflexivity.
+      + destruct (w_source w p v) as [[rp rsub]|]; cbn; [|reflexivity].
+        destruct (final_source_addr sub rp rsub); reflexivity.
+    - destruct (w_versions w p) as [infos|]; cbn; [|reflexivity].
+      destruct (select_version _ _) as [v|]; cbn; [|reflexivity].
+      destruct (assoc pv_eqb (p, v) (resolved st)) as [[rp rsub]|]; cbn.
+      + destruct (final_source_addr sub rp rsub); reflexivity.
+      + destruct (w_source w p v) as [[rp rsub]|]; cbn; [|reflexivity].
+        destruct (final_source_addr sub rp rsub); reflexivity. }
+  now rewrite Hm, Hd.
+Qed.
+
+Lemma erp_meta st p : meta_inv w st -> meta_inv w (fst (ensure_remote_package w st p)).
+Proof.
+  intros H. unfold ensure_remote_package, meta_inv in *.
+  destruct (assoc str_eqb p (dirs st)); [exact H|].
+  destruct (w_fetch w p) as [[c m]|] eqn:Ef; cbn; [|exact H].
+  rewrite Ef. destruct m as [m|]; cbn; now rewrite H.
+Qed.
+
+(* the metadata table of the bundle is, for every fetched package, exactly what
+   the fetcher returned with it - nothing lost, nothing invented, whatever the
+   order of Add calls, the dependency graph, or failures elsewhere *)
+Theorem metadata_recorded fuel ops st st' outs :
+  meta_inv w st -> run_ops fuel w st ops = (st', outs) -> meta_inv w st'.
+Proof.
+  apply (lift_run w (meta_inv w)); try (intros; assumption).
+  - intros s p sub sid. apply frs_meta.
+  - intros s p. apply erp_meta.
+Qed.
+End Meta.
+
+Lemma metas_of_in w ds p m :
+  In (p, m) (metas_of w ds) <-> exists c c', In (p, c) ds /\ w_fetch w p = Some (c', Some m).
+Proof.
+  unfold metas_of. rewrite in_flat_map. split.
+  - intros ([q c] & Hin & H). cbn [fst] in H.
+    destruct (w_fetch w q) as [[c' [m'|]]|] eqn:Ef; try contradiction.
+    destruct H as [[= <- <-]|[]]. exists c, c'. auto.
+  - intros (c & c' & Hin & Ef). exists (p, c). split; [exact Hin|]. cbn [fst]. rewrite Ef. now left.
+Qed.
